@@ -22,7 +22,8 @@ BRACKET_ATOMS = ["C@H1", "C@@H1", "C@", "C@@", "13C", "13CH1", "N+1", "O-1", "NH
 RING_PREFIX = [(10, ""), (3, "="), (1, "#"), (1, "-/"), (1, "\\/"), (1, "/-"), (1, "//"), (1, "\\\\"), (1, "/\\"), (1, "\\-"), (1, "-\\")]
 UNKNOWN = ["[Xx]", "[Branch4]", "[Ring0]", "[c]", "[CH]", "[C+0]", "[Expl=Ring1]", "[Branch1_2]", "[Cexpl]", "[]",
            "[--Ring1]", "[C+]", "[CHH1]", "[=Branch0]", "[=Ring4]", "[C@@@]", "[C++1]", "[Qq+1]", "[1]", "[=]", "[Ring]",
-           "[===C]", "[ C]", "[C-01]", "[CH12]", "[#Ring1x]", "[N@H]", "[/Branch1]", "[=/Ring1]"]
+           "[===C]", "[ C]", "[C-01]", "[CH12]", "[#Ring1x]", "[N@H]", "[/Branch1]", "[=/Ring1]",
+           "[xepsx]", "[epsilo]", "[epsilon ]", "[Epsilon]", "[\uff11\uff12C]", "[CH\uff12]", "[C+\u0661]", "[\u0663H]"]
 
 
 def digits_for(q, L):
@@ -178,7 +179,7 @@ def gen_live(ch, table, max_len=120, unknown_percent=0, frag_percent=4):
         toks.append(t)
         sim.feed(t)
 
-    while len(toks) < target:
+    while len(toks) < target and not (toks and ch.exhausted()):
         if unknown_percent and ch.bool(unknown_percent):
             emit(ch.pick(UNKNOWN))
             continue
@@ -274,6 +275,8 @@ def gen_uniform(ch, alphabet, max_len=60, dot_percent=2):
     n = ch.int(1, max_len)
     toks = []
     for _ in range(n):
+        if toks and ch.exhausted():
+            break
         if dot_percent and toks and toks[-1] != "." and ch.bool(dot_percent):
             toks.append(".")
         else:
